@@ -146,10 +146,24 @@ func newLoopRelay(kind string, responder, reportAs netip.AddrPort, psk []byte, s
 		return nil, err
 	}
 	r := &loopRelay{kind: kind, front: front, up: up, responder: responder, keys: ssudp.Keys{PSK: psk}, ssid: ssid,
-		srcWire: ssudp.Addr{IP: reportAs.Addr(), Port: reportAs.Port()}.Wire()}
+		srcWire: socksWire(reportAs)}
 	go r.serveFront()
 	go r.serveUp()
 	return r, nil
+}
+
+// socksWire is the SOCKS5 encoding of an IP endpoint *as given*: an IPv4-mapped IPv6 address stays
+// a 16-byte ATYP 4 address (some relays report sources that way), it is not folded to IPv4.
+func socksWire(ap netip.AddrPort) []byte {
+	var out []byte
+	if ap.Addr().Is4() {
+		a := ap.Addr().As4()
+		out = append(append(out, 1), a[:]...)
+	} else {
+		a := ap.Addr().As16()
+		out = append(append(out, 4), a[:]...)
+	}
+	return binary.BigEndian.AppendUint16(out, ap.Port())
 }
 
 func (r *loopRelay) addrPort() netip.AddrPort { return r.front.LocalAddr().(*net.UDPAddr).AddrPort() }
